@@ -283,7 +283,8 @@ class Check(PropertyCheck):
         'statement by statement into the language of Model/IniIR.v (fail-closed); primitives of that language (stated in '
         'IniIR.v): regex membership, ast.literal_eval = Spec.PyListLit/PyStrLit, one-character str methods, the two '
         'comprehension shapes, isinstance, class-based except matching; exception messages are not translated; the two '
-        'loop headers and the read_string prologue are pinned shapes',
+        'loop headers and the read_string prologue are pinned shapes; AST normalisation before translation: inlining of '
+        'same-module / same-class helpers, try/except/else via a fresh flag, bare R.match(x) in boolean position',
         'extraction: ExtrOcamlBasic only; OCaml 4.13.1; coq/ocaml/driver.ml',
         'correspondence harness harness/c20.py + harness/impl/c20_options.py',
         'specs of external behaviour, validated against the running CPython on the same enumerations: '
